@@ -161,7 +161,7 @@ Lemma dsl_use_by_value : forall L g fr st x v ps body,
   dsl_dget x (dsl_kv st (dfr_locals fr)) = Some v ->
   dsl_eval L (S (S g)) fr st (DeFunc ps [(x, DeVar x)] body) =
     (DrVal (DvFun (List.length st)), (st ++ [DoFun ps [(x, v)] body])%list).
-Proof. intros. simpl. rewrite H. reflexivity. Qed.
+Proof. intros. cbn [dsl_eval dsl_do dsl_eval_closed]. unfold dsl_var_read. rewrite H. reflexivity. Qed.
 
 (* ... and a later assignment to the local x does not reach into the function object *)
 Lemma dsl_sset_other : forall st l o k, k <> l -> dsl_sget (dsl_sset st l o) k = dsl_sget st k.
@@ -174,7 +174,7 @@ Lemma dsl_set_local_keeps_closure : forall fr st k v l,
   l <> dfr_locals fr -> dsl_sget (dsl_set_local fr st k v) l = dsl_sget st l.
 Proof.
   intros. unfold dsl_set_local, dsl_kv_put.
-  destruct (dsl_sget st (dfr_locals fr)) as [[| | |]|]; apply dsl_sset_other; exact H.
+  destruct (dsl_sget st (dfr_locals fr)) as [[| | | |]|]; apply dsl_sset_other; exact H.
 Qed.
 
 Definition dsl_scoping_stmt : Prop :=
@@ -344,6 +344,27 @@ Definition dsl_prog_iter : dsl_expr :=
 Lemma dsl_cyclic_refuted :
   fst (dsl_run 400 dsl_prog_cyclic) = DrAbort DaCycle /\ fst (dsl_run 400 dsl_prog_cyclic_tostring) = DrAbort DaCycle.
 Proof. split; vm_compute; reflexivity. Qed.
+(* using null; foo  - the lookup of foo reaches the import whose value is null (F-C15-f) *)
+Definition dsl_prog_null_import : dsl_expr := DeDict true [DeLit DvEmpty; DeVarU [DeLit DvEmpty] "foo"].
+(* intersection([-5], [-5], [-5, 0, 7]) - the third array is longer than the running result (F-C15-g) *)
+Definition dsl_prog_isect_alias : dsl_expr :=
+  DeDict true [DeCall (DeVar "intersection") [DeArray [dsl_n (-5)]; DeArray [dsl_n (-5)]; DeArray [dsl_n (-5); dsl_n 0; dsl_n 7]]].
+(* the neighbours the model follows: a shorter third array; an import that is not reached *)
+Definition dsl_prog_isect_ok : dsl_expr :=
+  DeDict true [DeCall (DeVar "intersection") [DeArray [dsl_n 1; dsl_n 2; dsl_n 3]; DeArray [dsl_n 3; dsl_n 2; dsl_n 1]; DeArray [dsl_n 2; dsl_n 3]]].
+Definition dsl_prog_null_import_unreached : dsl_expr :=
+  DeDict true [dsl_var "a" (dsl_n 4); DeLit DvEmpty; DeVarU [DeLit DvEmpty] "a"].
+
+Lemma dsl_null_import_refuted :
+  fst (dsl_run 400 dsl_prog_null_import) = DrAbort DaNullImport /\
+  dsl_observe (dsl_run 400 dsl_prog_null_import_unreached) = ["4"; "{}"; "{""a"":4}"; "{}"].
+Proof. split; vm_compute; reflexivity. Qed.
+
+Lemma dsl_isect_alias_refuted :
+  fst (dsl_run 400 dsl_prog_isect_alias) = DrAbort DaIsectAlias /\
+  dsl_observe (dsl_run 400 dsl_prog_isect_ok) = ["[2,3]"; "{}"; "{}"; "{}"].
+Proof. split; vm_compute; reflexivity. Qed.
+
 (* after the fixes these witnesses are ordinary programs: value, script error, value *)
 Lemma dsl_fixed_witnesses :
   dsl_observe (dsl_run 400 dsl_prog_minus_null) = ["[1]"; "{}"; "{}"; "{}"] /\
